@@ -32,9 +32,9 @@ RULE = ("ADMGs with 2-7 nodes (generator weighted towards sparse directed chains
 ASSUMPTIONS = [
     "argument FORMS (harness/forms.py, harness/oracles/id_run.py id_slots; chosen deterministically per case, stored in the case, tagged form_*): treatments / outcomes as set / frozenset / list / tuple / dict keys / generator / iterator / map or a bare Variable for a one-element set; the Identification made by Identification(query=Query(..), graph=..) by keyword or by position, by from_parts, or by from_expression from P[X](Y) and P(Y @ X) (valid queries only); identify_outcomes positional or by keyword; 'no conditions' omitted / None / an empty set or list -- for identify_outcomes an EMPTY collection is not None and routes the query through IDC with nothing to condition on (estimand E / sum_Y E), which the model side mirrors with identify_outcomes_c and an empty condition list; the graph through every public constructor. 'Caller's objects unchanged' covers every re-iterable argument collection (one-shot iterables are consumed by definition)",
     "clause 'leaves the caller's graph and query objects unchanged' is a Python-runtime clause (R): decided by deep comparison of the graph, the argument sets and the Identification/Query objects before and after every call, not by a theorem (the model is pure)",
-    "clause 'refuses exactly when the effect is not identifiable (a hedge exists)': `id_fail_iff_hedge` proves refusal <=> a hedge (Y0/Spec/Hedge.lean: Shpitser-Pearl 2006 Def. 6 on vertex sets) exists for the ORIGINAL query, both directions on the graph; 'a hedge exists => not identifiable from P(v)' (Shpitser-Pearl Thm 4: two models agreeing on P(v) and differing on P_x(y)) is literature, not mechanised; 'estimand returned => identifiable, by that estimand' is C01's id_sound; the verdict is also compared per input with two independent decision procedures (c-component criterion; brute-force hedge search up to 6 nodes)",
+    "clause 'refuses exactly when the effect is not identifiable (a hedge exists)': `id_fail_iff_hedge` proves refusal <=> a hedge (Y0/Spec/Hedge.lean: Shpitser-Pearl 2006 Def. 6 on vertex sets) exists for the ORIGINAL query, both directions on the graph; 'a hedge exists => not identifiable from P(v)' (Shpitser-Pearl Thm 4: two models agreeing on P(v) and differing on P_x(y)) is the theorem hedge_not_identifiable (Props/C02Complete.lean, see the last entry); 'estimand returned => identifiable, by that estimand' is C01's id_sound; the verdict is also compared per input with two independent decision procedures (c-component criterion; brute-force hedge search up to 6 nodes)",
     "`graph.topological_sort()` (networkx, on a graph rebuilt from a Python set) is a parameter `topo` of the model; the theorems assume it returns a linear extension of the directed part (trusted: networkx); the correspondence feeds the orders observed in the real run",
-    "SUPERSEDES the 'literature, not mechanised' part of the second entry: 'a hedge exists => not identifiable' (Shpitser-Pearl 2006 Thm 4) IS now a theorem, `hedge_not_identifiable` in Y0/Props/C02Complete.lean (two positive models of the class Y0/Spec/Scm.lean with equal P(v) and different P_x(y)), and the clause is `id_refuses_iff_not_identifiable` / `id_ok_iff_identifiable` for every valid query with treatments inside the graph; 'identifiable' is Y0/Spec/Identifiable.lean (compatible positive discrete models with independent root latents shared only across bidirected edges, equal ranges of the observed variables, distributions compared at in-range assignments) -- non-identifiability relative to a larger model class (latents with parents, non-positive distributions) follows a fortiori, identifiability relative to a larger class does not",
+    "'a hedge exists => not identifiable' (Shpitser-Pearl 2006 Thm 4) IS now a theorem, `hedge_not_identifiable` in Y0/Props/C02Complete.lean (two positive models of the class Y0/Spec/Scm.lean with equal P(v) and different P_x(y)), and the clause is `id_refuses_iff_not_identifiable` / `id_ok_iff_identifiable` for every valid query with treatments inside the graph; 'identifiable' is Y0/Spec/Identifiable.lean (compatible positive discrete models with independent root latents shared only across bidirected edges, equal ranges of the observed variables, distributions compared at in-range assignments) -- non-identifiability relative to a larger model class (latents with parents, non-positive distributions) follows a fortiori, identifiability relative to a larger class does not",
 ]
 EXHAUSTIVE = {"quick": False, "thorough": False}
 LEANCHECK_MODULES = ["Y0.Model.Id", "Y0.Model.IdDsl", "Y0.Props.C02"]
@@ -201,9 +201,14 @@ MANIFEST = {
              "the recursion and excludes lines 1 and 6 (step_hedge_down), so by totality ID refuses; no probability is "
              "involved. The verdict is also compared per input with two independent decision procedures (c-component "
              "criterion of Tian/Huang-Valtorta; brute-force hedge search <= 5/6 nodes); soundness of positive verdicts is "
-             "C01's id_sound. Absence of side effects: deep comparison of the caller's objects on every run."),
+             "C01's id_sound. COMPLETENESS in the sense of the property (Props/C02Complete.lean): hedge_not_identifiable "
+             "(Shpitser-Pearl Thm 4 mechanised: for every hedge two compatible positive models with equal P(v) and different "
+             "P_x(y), by an epsilon-perturbed parity construction) and id_ok_identifiable give id_refuses_iff_not_identifiable / "
+             "id_ok_iff_identifiable / identifiable_iff_no_hedge: ID refuses exactly when the effect is not identifiable from "
+             "the observational distribution (Y0/Spec/Identifiable.lean). Absence of side effects: deep comparison of the "
+             "caller's objects on every run."),
     "note": ("Trusted: Lean kernel; axioms propext/Classical.choice/Quot.sound; the hand-written model and the model of "
              "networkx/set iteration (topological order taken as a parameter), tied to the code by sampling; "
-             "'hedge => not identifiable' is literature, not mechanised; 'no mutation' is a runtime clause."),
+             "'identifiable' is relative to the model class of Y0/Spec/Scm.lean (positive discrete models, independent root latents); 'no mutation' is a runtime clause."),
     "technique": "Lean 4 theorems about an executable model (well-founded recursion, invariants) + differential correspondence + independent complete identifiability oracle + hedge brute force",
 }
